@@ -244,6 +244,13 @@ def gen_ph(rng, u, creator):
         bmcid = rng.choice([0, 0xFFFFFFFF])
     while bmcid in (eid, plid):
         bmcid = rng.randrange(1 << 32)
+    if rng.random() < 0.04:
+        # coincidences: the same value in neighbouring fields
+        plid = eid
+        if rng.random() < 0.5:
+            bmcid = eid
+        if rng.random() < 0.5:
+            mraw, mdisp = craw, cdisp
     return dict(ver=hb(rng), sub=hb(rng), comp=gen_compid(rng, creator),
                 create_raw=craw, create_disp=cdisp, commit_raw=mraw, commit_disp=mdisp,
                 res0=rng.choice([0, rng.randrange(256)]), res1=rng.choice([0, rng.randrange(256)]),
@@ -458,11 +465,15 @@ def gen_src(rng, u, primary, creator, srctype=None, refcode=None, ncallouts=None
             if rng.random() < 0.5:
                 w5 |= bit
         words[3] = w5
+    if rng.random() < 0.04:
+        words = [rng.choice([0, 0xFFFFFFFF, words[0]])] * 8          # every word the same value
     wc = wordcount if wordcount is not None else rng.choice([9, 9, 9, 1, 2, 3, 4, 5, 6, 7, 8])
     flags = rng.randrange(256) & ~0x01
     if ncallouts is None:
         ncallouts = rng.choice([0, 0, 1, 1, 2, 3, 4, 6, 10])
     callouts = [gen_callout(rng, u) for _ in range(ncallouts)]
+    if len(callouts) >= 2 and rng.random() < 0.15:
+        callouts[rng.randrange(1, len(callouts))] = callouts[0]      # the same callout listed twice
     has_sub = ncallouts > 0 or rng.random() < 0.1
     if has_sub:
         flags |= 0x01
